@@ -82,6 +82,23 @@ func collect(id, tier string) ([]srcFile, error) {
 	for _, g := range gen {
 		out = append(out, srcFile{Virtual: g.Virtual, Data: g.Data})
 	}
+	// shared preludes for the packages in use
+	used := map[string]bool{}
+	for _, s := range out {
+		used[filepath.Dir(s.Virtual)] = true
+	}
+	pre, _ := filepath.Glob(filepath.Join(verifDir, "harness", "prelude", "*.go"))
+	sort.Strings(pre)
+	for _, f := range pre {
+		b, err := os.ReadFile(f)
+		if err != nil {
+			return nil, err
+		}
+		mm := overlayRe.FindSubmatch(b)
+		if mm != nil && used[filepath.Dir(string(mm[1]))] {
+			out = append(out, srcFile{Virtual: string(mm[1]), Real: f, Data: b})
+		}
+	}
 	return out, nil
 }
 
